@@ -32,10 +32,15 @@ pub fn gen(prop: &str, scen: &str, _k: u64, seed: u64, tier: &str) -> Case {
     }
     match scen {
         "mem.encoder" => {
-            case.fmt = (*r_opt.pick(&["lzma2", "lzma2", "lzma"])).into();
+            case.fmt = (*r_opt.pick(&["lzma2", "lzma2", "lzma", "lzma"])).into();
             if case.fmt == "lzma" {
                 case.set("marker", 1);
-            } else if r_opt.pct(25) {
+                if r_opt.pct(60) {
+                    // LZMA1 allows lc 0..=8 and lp 0..=4: the literal coder grows with 2^(lc+lp)
+                    case.opt.lc = r_opt.range(0, 8) as u32;
+                    case.opt.lp = r_opt.range(0, 4) as u32;
+                }
+            } else if r_opt.pct(35) {
                 case.opt.unit = Some(case.opt.dict as u64);
             }
             case.input = InputSpec::new("text", (case.opt.dict as usize).min(3 << 20) + r_in.urange(0, 70000), r_in.next_u64());
@@ -116,7 +121,19 @@ fn encoder(case: &Case, data: &[u8], ctx: &mut Ctx) -> Option<Violation> {
         // std::io::sink() does not allocate, so only the writer's own memory is measured
         if case.fmt == "lzma2" {
             let mut w = lz::LZMA2Writer::new(std::io::sink(), codec::lzma2_options(&case.opt));
-            w.write_all(data)?;
+            // in pieces: independent chunks (chunk_size) are only started between write calls
+            let unit = case.opt.unit.map(|u| (u as usize).max(case.opt.dict as usize));
+            let mut since = 0usize;
+            for piece in data.chunks(8192) {
+                w.write_all(piece)?;
+                since += piece.len();
+                if unit.map(|u| since >= u).unwrap_or(false) {
+                    // everything written so far leaves the encoder: the next write call starts
+                    // an independent chunk (and with it a new encoder)
+                    w.flush()?;
+                    since = 0;
+                }
+            }
             w.finish()?;
         } else {
             let mut w = lz::LZMAWriter::new_no_header(std::io::sink(), &opts, true)?;
